@@ -4,7 +4,8 @@ from __future__ import annotations
 import ast
 from typing import Dict, List, Optional, Set, Tuple
 
-from ..alias import engine, is_private, flat
+from .. import tables as T
+from ..alias import engine, is_private, flat, root
 from ..cfg import Node
 from ..core import canon_in, AnalysisError, Ob, dotted, kw, need, ob, short, src, strip_wrappers, uncopy, walk_no_nested
 from ..flow import forward, node_calls, node_defs
@@ -78,6 +79,16 @@ def rule_esc(ctx: Ctx) -> List[Ob]:
                        "so the correction pairs are no longer differences of visited points") if w else
                       f"stored origins {sorted(og)}: private, no later in-place write",
                       construct=f"store into {ck}: {short(site, 70)}"))
+        # the stored object must also be out of the *user's* reach: an array owned by the caller of the API
+        # (x0, checkpoint.jac, ...) held by reference can be rewritten by user code while the run goes on
+        # (a callback that refreshes its kept checkpoint in place, a reused x0 buffer)
+        owned = sorted(o for o in og if o[0] == "param" and root(o) in T.API_CALLER_OWNED)
+        obs.append(ob("ESC", f"value stored into {ck} is not an object owned by the caller", mm.f, site, not owned,
+                      (f"stored object may be {owned}: the history holds the caller's own array by reference; user code "
+                       "that writes it during the run (callback refreshing the kept checkpoint in place, reused x0 buffer) "
+                       "rewrites a retained point / gradient, so the pairs are no longer differences of visited points") if owned else
+                      f"stored origins {sorted(og)}: none is a caller-owned object",
+                      construct=f"store into {ck} (ownership): {short(site, 70)}"))
     need(nst >= 4, f"ESC: only {nst} stores into the history found")
     return obs
 
@@ -399,12 +410,15 @@ def rule_coh(ctx: Ctx) -> List[Ob]:
 
     def coherent_src(v, kind):
         """is v a value that is coherent with x by construction? kind: 'f' or 'g'"""
+        if v is not None and not isinstance(v, ast.IfExp) and src(uncopy(v)).startswith("checkpoint."):
+            v = uncopy(v)
         if isinstance(v, ast.IfExp):
             return coherent_src(v.body, kind) and coherent_src(v.orelse, kind)
         if isinstance(v, ast.Call):
             d = dotted(v.func) or ""
             okd = (d in (f"{sf}.fun", f"{sf}.fun_and_grad") if kind == "f" else d in (f"{sf}.grad", f"{sf}.fun_and_grad"))
             return okd and bool(v.args) and src(v.args[0]) == xn
+        v = uncopy(v)
         return v is not None and src(v).startswith("checkpoint.") and src(v).endswith(".fun" if kind == "f" else ".jac")
 
     def transfer(n: Node, st):
@@ -415,6 +429,9 @@ def rule_coh(ctx: Ctx) -> List[Ob]:
             return st
         newF, newG = FX, GX
         for k, v, how in defs:
+            if k == gn and v is not None and src(uncopy(v)).startswith("checkpoint.") and src(uncopy(v)).endswith(".jac"):
+                newG = True    # a private copy of the checkpoint's gradient is the checkpoint's gradient
+                continue
             if k == xn:
                 newF = newG = False
             elif k == fn_:
@@ -620,6 +637,7 @@ def rule_fields(ctx: Ctx) -> List[Ob]:
         return None
 
     def is_ck_read(e: ast.AST, fld: str) -> bool:
+        e = uncopy(e)   # a private copy of the field (np.copy(checkpoint.jac)) restores the same value
         return src(e) == f"checkpoint.{fld}" or ck_key(e) == fld
     for f in (mm.f, init):
         for n in walk_no_nested(f.node):
